@@ -131,6 +131,7 @@ class Run:
         self.funcs = funcs
         self.actions: list[tuple[str, Action]] = []     # every action that exists, in creation order
         self.steps: list[dict] = []
+        self._last: list | None = None
 
     # ---- facts about objects
     def ident(self, n) -> str:
@@ -159,30 +160,41 @@ class Run:
         return a
 
     # ---- the environment
-    def env(self, with_e: bool = False) -> dict[str, Action]:
+    def env(self, refs: set[str]) -> dict[str, Action]:
+        """The actions of the environment that the case refers to (and what they are made from); A and B always."""
         A = from_source([srcA0, srcA1], dims=["x"], coords={"x": [0, 1]})
         B = from_source([srcB0, srcB1], dims=["x"], coords={"x": [5, 6]})
-        D = from_source([[srcD0], [srcD1]], dims=["x", "y"], coords={"x": [0, 1], "y": [7]})
-        e = {"A": A, "B": B, "D": D, "A2": A.map(CALL["par1"]), "B2": B.map(CALL["par2"])}
-        if with_e:
+        e = {"A": A, "B": B}
+        if "D" in refs:
+            e["D"] = from_source([[srcD0], [srcD1]], dims=["x", "y"], coords={"x": [0, 1], "y": [7]})
+        if "A2" in refs:
+            e["A2"] = A.map(CALL["par1"])
+        if "B2" in refs:
+            e["B2"] = B.map(CALL["par2"])
+        if "E" in refs:
             e["E"] = from_source([srcE0, srcE1, srcE2, srcE3], dims=["x"], coords={"x": [0, 1, 2, 3]})
+        if any(r[:1] in ("F", "G", "Z") for r in refs):          # slices that keep the selected label as a scalar coordinate
+            F = from_source([[srcE0, srcE1], [srcE2, srcE3]], dims=["m", "x"], coords={"m": [0, 1], "x": [0, 1]})
+            e.update({"F": F, "F0": F.select(m=0), "F1": F.select(m=1), "F0i": F.isel(m=0), "F1i": F.isel(m=1),
+                      "G0": F.select(x=0), "G1": F.select(x=1), "Z0": F.select(m=0).select(x=0), "Z1": F.select(m=1).select(x=1)})
         for k, a in e.items():
             self.add(k, a)
         return e
 
     # ---- one operation, with snapshots of everything that existed before it
     def step(self, op: dict, cur: Action | None, e: dict[str, Action]) -> Action | None:
-        before = self.snaps()
+        # nothing runs between two steps: the snapshot taken after the previous step (incl. its result) is this step's `before`
+        before = self._last if self._last is not None and len(self._last) == len(self.actions) else self.snaps()
         n_before = len(self.actions)
         res, raised = None, False
         try:
             res = self.apply(op, cur, e)
         except Exception:
             raised = True
-        after = [self.snap(k, a) for k, a in self.actions[:n_before]]
-        self.steps.append({"op": op["k"], "raised": raised, "before": before, "after": after})
         if res is not None:
             self.add(f"r{len(self.actions)}", res)
+        self._last = self.snaps()
+        self.steps.append({"op": op["k"], "raised": raised, "before": before, "after": self._last[:n_before]})
         return res
 
     def apply(self, op: dict, cur: Action | None, e: dict[str, Action]) -> Action:
@@ -288,13 +300,13 @@ def observe(case: dict) -> dict:
     funcs = FUNCS
     builds, nodes, steps = [], [], []
     shared = payloads()
-    with_e = any(op["o"] == "E" for op in list(case["p"]) + list(case["q"]))
+    refs = {op["o"] for op in list(case["p"]) + list(case["q"])} | {case["start"]}
     for _ in range(2):                      # two independent builds of the same case
         run = Run(funcs, shared)
         if case["kind"] == "sources":
             names = run.sources(case)
         else:
-            e = run.env(with_e)
+            e = run.env(refs)
             names = [run.program(case["p"], case["start"], e)]
             if case["q"]:
                 names.append(run.program(case["q"], case["start"], e))
